@@ -52,7 +52,7 @@ class Parser(Emitter):
 
         fn = self.functions.get(name)
         result = {'value': None}  # get around 2.7 not having nonlocal
-        if fn is None:
+        if fn is None and formulas.is_supported(name):
             fn = formulas.get_for(name)
         if fn is None:
             raise formulaserror.NAME
